@@ -9,6 +9,7 @@
 package main
 
 import (
+	"context"
 	"fmt"
 	"go/ast"
 	"go/token"
@@ -18,6 +19,8 @@ import (
 	"sort"
 	"strconv"
 	"strings"
+	"sync"
+	"sync/atomic"
 
 	"github.com/dolthub/go-mysql-server/memory"
 	"github.com/dolthub/go-mysql-server/sql"
@@ -91,7 +94,7 @@ func branchActions(src *hx.Src, b *ast.BlockStmt) string {
 
 func extract(a hx.ExtractArgs) error {
 	lf := hx.NewLeanFile("Gms.Generated.C20", "memory/table_editor.go", "memory/table.go", "memory/table_data.go",
-		"sql/expression/auto_increment.go", "sql/rowexec/insert.go", "sql/rowexec/dml_iters.go")
+		"sql/expression/auto_increment.go", "sql/rowexec/insert.go", "sql/rowexec/dml_iters.go", "sql/rowexec/dml.go")
 
 	// 1. tableEditor.Insert: the `cmp > 0 … else if cmp == 0 …` chain on the counter
 	ed, err := hx.ParseSrc(a.Repo, "memory/table_editor.go")
@@ -248,6 +251,26 @@ func extract(a hx.ExtractArgs) error {
 		return true
 	})
 	lf.DefStringList("insertIdGuards", hrConds)
+
+	// 6b. buildTruncate: TRUNCATE resets the counter through SetAutoIncrementValue(ctx, <arg>)
+	dm, err := hx.ParseSrc(a.Repo, "sql/rowexec/dml.go")
+	if err != nil {
+		return err
+	}
+	bt, err := dm.Func("BaseBuilder", "buildTruncate")
+	if err != nil {
+		return err
+	}
+	var truncArgs []string
+	ast.Inspect(bt.Body, func(n ast.Node) bool {
+		if ce, ok := n.(*ast.CallExpr); ok {
+			if sel, ok := ce.Fun.(*ast.SelectorExpr); ok && sel.Sel.Name == "SetAutoIncrementValue" && len(ce.Args) == 2 {
+				truncArgs = append(truncArgs, condText(dm, ce.Args[1]))
+			}
+		}
+		return true
+	})
+	lf.DefStringList("truncateSetsCounterTo", truncArgs)
 
 	// 7. run-time table of updateAutoIncrementSafe over every integer column type
 	ctx := sql.NewEmptyContext()
@@ -417,12 +440,23 @@ func errClass(r *eng.Res) string {
 
 func isGenGiven(g string) bool { return g == "n" || g == "0" }
 
-// runHist executes the history on a fresh engine; returns the observation and the oracle verdicts.
-func runHist(h hist) (obs string, fails [][2]string, feats map[string]bool) {
+var connSeq atomic.Uint32
+
+// newCtx is eng.Eng.Ctx with an atomic connection counter (histories run on parallel engines).
+func newCtx(e *eng.Eng) *sql.Context {
+	id := 1000 + connSeq.Add(1)
+	bs := sql.NewBaseSessionWithClientServer("localhost:3306", sql.Client{Address: "localhost", User: "root"}, id)
+	sess := memory.NewSession(bs, e.Pro)
+	ctx := sql.NewContext(context.Background(), sql.WithSession(sess))
+	ctx.SetCurrentDatabase(e.DBs[0].Name())
+	return ctx
+}
+
+// runHist executes the history on a fresh table and fresh sessions; returns the observation and the oracle verdicts.
+func runHist(e *eng.Eng, h hist) (obs string, fails [][2]string, feats map[string]bool) {
 	feats = map[string]bool{}
-	e := eng.New("d")
-	ctxs := []*sql.Context{e.Ctx(), e.Ctx()}
-	e.MustExec(eng.SameSession(ctxs[0]), h.ddl())
+	ctxs := []*sql.Context{newCtx(e), newCtx(e)}
+	e.MustExec(eng.SameSession(ctxs[0]), "DROP TABLE IF EXISTS t", h.ddl())
 	q := func(s int, text string) *eng.Res { return e.Query(eng.SameSession(ctxs[s]), text) }
 
 	var parts []string
@@ -452,7 +486,7 @@ func runHist(h hist) (obs string, fails [][2]string, feats map[string]bool) {
 		// state after the statement (observed through fresh queries; the counter through a new session)
 		rawCtr := "?"
 		if p := hx.Safe(func() {
-			c := e.Ctx()
+			c := newCtx(e)
 			t, ok, err := e.DBs[0].GetTableInsensitive(c, "t")
 			if err != nil || !ok {
 				panic("table t not found")
@@ -762,19 +796,42 @@ func run(a hx.RunArgs) error {
 	r := hx.NewRand(a.Seed)
 	n := 500
 	if a.Thorough {
-		n = 40000
+		n = 25000
 	}
 	hs := corpus()
 	for i := 0; i < n; i++ {
 		hs = append(hs, genHist(r, a.Thorough))
 	}
-	for _, h := range hs {
-		var obs string
-		var fails [][2]string
-		var feats map[string]bool
-		if p := hx.Safe(func() { obs, fails, feats = runHist(h) }); p != "" {
-			obs = "crash:" + p
-		}
+	type result struct {
+		obs   string
+		fails [][2]string
+		feats map[string]bool
+	}
+	results := make([]result, len(hs))
+	var wg sync.WaitGroup
+	var next atomic.Int64
+	for w := 0; w < 4; w++ {
+		wg.Add(1)
+		go func() {
+			defer wg.Done()
+			e := eng.New("d") // one engine per worker; every history re-creates table t and uses fresh sessions
+			for {
+				i := int(next.Add(1)) - 1
+				if i >= len(hs) {
+					return
+				}
+				var res result
+				if p := hx.Safe(func() { res.obs, res.fails, res.feats = runHist(e, hs[i]) }); p != "" {
+					res = result{obs: "crash:" + p, feats: map[string]bool{}}
+					e = eng.New("d")
+				}
+				results[i] = res
+			}
+		}()
+	}
+	wg.Wait()
+	for i, h := range hs {
+		obs, fails, feats := results[i].obs, results[i].fails, results[i].feats
 		nontriv := feats["generated"] && (feats["explicit-above-counter"] || feats["delete"] || feats["failed-insert"] || feats["alter-lower"] || feats["alter-raise"])
 		id := out.Case(h.payload(), obs, nontriv)
 		out.Stat("type:" + h.ct.name)
